@@ -51,7 +51,7 @@ type c15El struct {
 	Items   []c15Item      `json:"items"`
 	Uniform bool           `json:"uniform"`
 	Ragged  bool           `json:"ragged"` // rows with differing numbers of cells
-	Nav     bool           `json:"nav"` // the element sits inside a <nav> block (history documents)
+	Nav     bool           `json:"nav"`    // the element sits inside a <nav> block (history documents)
 }
 
 type c15GridCell struct {
